@@ -191,7 +191,7 @@ func (f *remoteWrapper) Config() proxyv1alpha1.RateLimitItemConfiguration {
 	return f.remoteConfig
 }
 
-// clampToGlobal keeps whatever the limiter server answered within [1, configured global limit]
+// clampToGlobal keeps whatever the limiter server answered within [1, configured global limit] (0 for a global limit of 0)
 // (the minimum quota a server hands out is 1; a token bucket cannot run at rate 0)
 func (f *remoteWrapper) clampToGlobal(limitItem proxyv1alpha1.RateLimitItemConfiguration) proxyv1alpha1.RateLimitItemConfiguration {
 	clamp := func(v, max int32) int32 {
@@ -200,6 +200,10 @@ func (f *remoteWrapper) clampToGlobal(limitItem proxyv1alpha1.RateLimitItemConfi
 		}
 		if v < 1 {
 			v = 1
+		}
+		if max < 1 {
+			// a global limit of 0 admits nothing; the floor of 1 must not lift an answer above it
+			v = 0
 		}
 		return v
 	}
